@@ -688,6 +688,7 @@ func (lc *lenChecker) checkIndices(r *Report, fn *ssa.Function) int {
 
 func checkLoops(ctx *Ctx, r *Report, fn *ssa.Function) {
 	n := 0
+	descs := loopDescs(fn, topoAll(fn)) // natural loops (nested loops: the blocks after an inner loop are not part of it)
 	for _, b := range fn.Blocks {
 		isHdr := false
 		for _, p := range b.Preds {
@@ -715,7 +716,11 @@ func checkLoops(ctx *Ctx, r *Report, fn *ssa.Function) {
 			// other` has the Scan test continue into a second test, which alone decides.)
 			leaves := false
 			for _, su := range lb.Succs {
-				if !(b.Dominates(su) && reachableFrom(su)[b]) {
+				if ld := descs[b]; ld != nil {
+					if !ld.in[su] {
+						leaves = true
+					}
+				} else if !(b.Dominates(su) && reachableFrom(su)[b]) {
 					leaves = true
 				}
 			}
